@@ -3,7 +3,8 @@
    [h] is the hash of the 16-byte (parent id, function id) buffer: every theorem holds for every h.
    Values are int64: equalities are modulo 2^64 (wrap64), exactly what Go's += computes. *)
 From Coq Require Import List NArith ZArith Bool.
-From Qryn Require Import model.Pprof proofs.PprofProofs.
+From Coq Require Import Permutation.
+From Qryn Require Import model.Pprof model.ProfTree proofs.PprofProofs proofs.ProfTreeProofs.
 Import ListNotations.
 Open Scope Z_scope.
 
@@ -55,3 +56,77 @@ Print Assumptions root_sum_partial.
 Theorem profile_emitted_once : forall (A : Type) (over : bool) (pd : A), emitted over pd = [pd].
 Proof. exact @emitted_once. Qed.
 Print Assumptions profile_emitted_once.
+
+(* ------------------------------------------------------------------------------------------------
+   merge_is_sum.  Tree.MergeTrie on a fresh tree, for ANY list of int64 rows (any order, duplicates,
+   several profiles mixed) not longer than the node limit: the node of key (parent id, node id) exists
+   iff some row has that key, and its (self, total) are the sums of those rows' values modulo 2^64.
+   No hypothesis on the hash is needed here. *)
+Theorem merge_is_sum : forall (limit : Z) (rows : list row) (fs : list (N * Z)),
+  Z.of_nat (length rows) <= limit -> Forall row_in_range rows ->
+  forall p i, vals_at (m_nodes (merge_trie limit new_tree rows fs)) p i =
+              if has_key rows p i then Some (wrap64 (sum_self rows p i), wrap64 (sum_total rows p i)) else None.
+Proof. exact merge_is_sum_proof. Qed.
+Print Assumptions merge_is_sum.
+
+(* ... hence the order of the rows (of the profiles, and of the rows inside a profile) is irrelevant *)
+Theorem merge_order_irrelevant : forall (limit : Z) (rows rows' : list row) (fs fs' : list (N * Z)),
+  Permutation rows rows' -> Z.of_nat (length rows) <= limit -> Forall row_in_range rows ->
+  forall p i, vals_at (m_nodes (merge_trie limit new_tree rows fs)) p i =
+              vals_at (m_nodes (merge_trie limit new_tree rows' fs')) p i.
+Proof. exact merge_order_irrelevant_proof. Qed.
+Print Assumptions merge_order_irrelevant.
+
+(* The guard is needed: at the node limit MergeTrie returns and the remaining rows are lost. The
+   real limit is 2 000 000, the same number the SQL puts in its LIMIT, so the guard is what the
+   query guarantees.  Refutation of the unguarded statement, for the model's limit parameter 1: *)
+Theorem merge_is_sum_refuted : exists (limit : Z) (rows : list row),
+  Forall row_in_range rows /\ exists p i,
+  vals_at (m_nodes (merge_trie limit new_tree rows [])) p i <>
+  (if has_key rows p i then Some (wrap64 (sum_self rows p i), wrap64 (sum_total rows p i)) else None).
+Proof. exact merge_is_sum_refuted_proof. Qed.
+Print Assumptions merge_is_sum_refuted.
+
+(* Merging the stored rows of any list of profiles (each projected on its selected sample type, or
+   lacking it), taken in any order: the merged tree conserves (additive form: for every id x <> 0 the
+   totals of the nodes with id x = their self values + the totals of the nodes whose parent is x) and
+   the nodes under the root add up to the sum of the profiles' weights. *)
+Theorem merged_tree_conserves : forall (h : N -> N -> N) (limit : Z) (Ps : list stored) (rows : list row) (fs : list (N * Z)),
+  Forall (stored_ok h) Ps ->
+  Permutation rows (concat (map (stored_rows h) Ps)) ->
+  Z.of_nat (length rows) <= limit ->
+  let out := rows_of (m_nodes (merge_trie limit new_tree rows fs)) in
+  rconserves out /\ eqm (rchild_tot out 0%N) (sumZ (map stored_weight Ps)).
+Proof. exact merged_profiles_conserve. Qed.
+Print Assumptions merged_tree_conserves.
+
+(* Tree.Total() of the merged tree is the sum of the root totals of the rows (modulo 2^64) *)
+Theorem flamegraph_total_is_sum : forall (limit : Z) (rows : list row) (fs : list (N * Z)),
+  Z.of_nat (length rows) <= limit ->
+  total_of (merge_trie limit new_tree rows fs) = wrap64 (rchild_tot rows 0%N).
+Proof. exact total_is_sum_proof. Qed.
+Print Assumptions flamegraph_total_is_sum.
+
+(* ------------------------------------------------------------------------------------------------
+   levels_nest.  For a tree with non-negative self and total values and exact conservation under every
+   parent key, whose root total fits in int64: the first level BFS returns is the single bar
+   [0, root total); in every later level offsets and totals are non-negative and every bar lies inside
+   the bar, one level up, of the node named by its parent id (nest_levels, bar_inside); bars of one
+   level do not overlap (levels_disjoint). Holds for whatever BFS returns, also when its cycle guard
+   stops it early. *)
+Theorem levels_nest : forall t : mtree, tree_good t -> root_total t < two63 ->
+  exists ls, bfs t = [root_bar (root_total t)] :: ls /\ nest_levels [root_bar (root_total t)] ls.
+Proof. exact levels_nest_proof. Qed.
+Print Assumptions levels_nest.
+
+Theorem levels_disjoint : forall (l : list bar) (c : Z), (forall b, In b l -> 0 <= b_off b /\ 0 <= b_total b) ->
+  ForallOrdPairs (fun x y => snd (fst x) <= fst (fst y)) (abs_level c l).
+Proof. exact abs_level_disjoint. Qed.
+Print Assumptions levels_disjoint.
+
+(* the hypotheses of the merge and level theorems are met by the merged stored rows of ex_profile
+   (6 nodes, root total 12, 6 levels) *)
+Example merge_and_levels_apply :
+  Z.of_nat (length ex_rows) <= the_limit /\ Forall row_in_range ex_rows /\
+  tree_good ex_tree /\ root_total ex_tree < two63 /\ length (bfs ex_tree) = 6%nat /\ root_total ex_tree = 12.
+Proof. exact ex_tree_hypotheses. Qed.
